@@ -1028,5 +1028,48 @@ func TestC15(t *testing.T) {
 	if t.Failed() {
 		return
 	}
+	// the target name exists as a symbolic link that leads back to the
+	// operand (fa.xz -> fa, ga -> ga.xz; one-letter names such as f would be taken
+	// for the optional argument of a boolean option), with and without -f; and inputs whose
+	// mode has no read or write bit at all (only root can open them)
+	enumerate(t, rec, checkC15, func(try func(caseC15) bool) {
+		txt := gen.Recipe{{Kind: "text", K: 4, Len: 3000, Seed: 31}}
+		fl := func(fs ...string) (r []flagC15) {
+			for _, f := range fs {
+				r = append(r, flagC15{F: f, Style: "short"})
+			}
+			return
+		}
+		pos := func(n int) []int { return make([]int, n) }
+		var cases []caseC15
+		for _, flags := range [][]string{{"f"}, {"f", "k"}, {}} {
+			cases = append(cases,
+				caseC15{Files: []fileC15{{Name: "fa", Kind: "plain", Data: txt, Mode: 0640}, {Name: "fa.xz", Kind: "symlink", Link: "fa", Mode: 0777}},
+					Invs: []invC15{{Flags: fl(flags...), Files: []string{"fa"}, FlagPos: pos(len(flags))}}},
+				caseC15{Files: []fileC15{{Name: "ga.xz", Kind: "gxz_xz", Data: txt, Mode: 0600}, {Name: "ga", Kind: "symlink", Link: "ga.xz", Mode: 0777}},
+					Invs: []invC15{{Flags: fl(append([]string{"d"}, flags...)...), Files: []string{"ga.xz"}, FlagPos: pos(len(flags) + 1)}}},
+				caseC15{Files: []fileC15{{Name: "ha", Kind: "plain", Data: txt, Mode: 0644}, {Name: "ha.lzma", Kind: "symlink", Link: "ha", Mode: 0777}},
+					Invs: []invC15{{Flags: append(fl(flags...), flagC15{F: "F", Val: "lzma", Style: "short"}), Files: []string{"ha"}, FlagPos: pos(len(flags) + 1)}}})
+		}
+		if os.Geteuid() == 0 {
+			for _, mode := range []uint32{0, 0111, 0100, 0010} {
+				cases = append(cases, caseC15{Files: []fileC15{{Name: "ma", Kind: "plain", Data: txt, Mode: mode}},
+					Invs: []invC15{{Files: []string{"ma"}}, {Flags: fl("d"), Files: []string{"ma.xz"}, FlagPos: pos(1)}}})
+			}
+			rec.Class("modes_without_rw_bits(root)")
+		}
+		for i, c := range cases {
+			if i%rec.Shards != rec.Shard {
+				continue
+			}
+			rec.Class("enumerated_link_or_mode_case")
+			if !try(c) {
+				return
+			}
+		}
+	})
+	if t.Failed() {
+		return
+	}
 	drive(t, rec, drawC15, checkC15)
 }
